@@ -15,7 +15,8 @@ LEVEL = "exploration"
 RULE = (
     "each run draws 1..6 batch jobs (pending 0..20 s, runtime 0..100 s, exit code 0..3, submit offsets 0..30 s), "
     "pollingInterval 1..10 s, command latencies of the login node, and optionally an undeploy() at a seed-chosen "
-    "virtual instant; the real SlurmConnector submits/polls through a fake cluster that parses the exact "
+    "virtual instant, optionally preceded by the cancellation of the caller of one run() (fault run_caller_cancelled: the "
+    "job may still be queued and must then be cancelled by the undeploy); the real SlurmConnector submits/polls through a fake cluster that parses the exact "
     "sbatch/squeue/scontrol/cat/scancel command lines. Oracle over the cluster log in virtual time: run() for job J "
     "returns only at a time >= J's finish, with J's own output and exit code; undeploy cancels exactly the jobs not "
     "finished at that instant. non-trivial = at least two jobs overlapped in the queue; distinct = loop digests"
@@ -42,7 +43,11 @@ def run(sim, params):
     poll = (1, 2, 5, 10)[t.draw(4, "polling")]
     undeploy_at = (None, None, 0, 3, 8, 25, 60)[t.draw(7, "undeploy.at")]
     maxjobs = 1 + t.draw(6, "maxConcurrentJobs")
-    info = {"table": table, "submit_at": offs, "polling": poll, "undeploy_at": undeploy_at}
+    # fault: the caller of one run() is cancelled (workflow failure, Ctrl-C) while its job may still be queued; the job then
+    # stays the connector's responsibility until undeploy
+    cancel_job = t.draw(njobs, "cancel.job") if undeploy_at is not None and t.draw(3, "cancel") == 2 else None
+    cancel_at = (0, 1, 2, 5, 15, 40)[t.draw(6, "cancel.at")] if cancel_job is not None else None
+    info = {"table": table, "submit_at": offs, "polling": poll, "undeploy_at": undeploy_at, "cancel": [cancel_job, cancel_at]}
     res = {}
     state = {}
 
@@ -64,6 +69,14 @@ def run(sim, params):
                 res[k] = ("raised", sim.loop.time(), repr(e)[:100], None, sim.loop.steps)
 
         tasks = [asyncio.create_task(one(k), name=f"job{k}") for k in range(njobs)]
+        if cancel_job is not None and cancel_at < undeploy_at:
+            async def canceller():
+                await asyncio.sleep(cancel_at)
+                if not tasks[cancel_job].done():
+                    sim.fault("run_caller_cancelled")
+                    tasks[cancel_job].cancel()
+
+            asyncio.create_task(canceller(), name="canceller")
         if undeploy_at is None:
             await asyncio.gather(*tasks)
         else:
